@@ -6,7 +6,8 @@ import LogosModel.Callback
 
 Two token types `A` and `B` over the same `str` source; a pool of lexers made by `Lexer::with_extras` /
 `partial_with_extras` (`fresh`), `clone`, `clone_from` and `morph`.
-`Lexer` = `(token type, token_start, token_end, extras, is_prefix)`; the source is shared.
+`Lexer` = `(token type, token_start, token_end, extras, is_prefix, source)`; there are two sources (the second
+is longer and its char boundaries lie elsewhere), so that what a copy takes over from which lexer matters.
 -/
 namespace Logos
 
@@ -17,6 +18,8 @@ structure LexSt where
   extras : Nat
   /-- `is_prefix`: the lexer was made by `new_partial` / `partial_with_extras` -/
   pfx : Bool := false
+  /-- which of the two sources the lexer reads -/
+  srcId : Nat := 0
 deriving Repr, DecidableEq
 
 structure ApiEnv where
@@ -25,6 +28,8 @@ structure ApiEnv where
   cbA : Callbacks
   cbB : Callbacks
   src : List Nat
+  /-- the second source -/
+  src2 : List Nat := []
   isPrefix : Bool
   /-- `true`: the source is a `str` (UTF-8 boundaries), `false`: a `[u8]` -/
   utf8 : Bool := true
@@ -35,7 +40,7 @@ inductive ApiOp where
   | bump (i n : Nat)
   | clone (i : Nat)
   | morph (i : Nat)
-  | fresh (pfx : Bool)   -- `Lexer::<A>::with_extras(src, 7)` / `partial_with_extras(src, 7)`, appended to the pool
+  | fresh (pfx : Bool) (srcId : Nat)   -- `Lexer::<A>::with_extras(src_k, 7)` / `partial_with_extras(src_k, 7)`, appended to the pool
   | cloneFrom (i j : Nat)    -- `pool[i].clone_from(&pool[j])` (when they have the same token type)
 deriving Repr, DecidableEq
 
@@ -53,20 +58,23 @@ deriving Repr, DecidableEq
 
 def ApiEnv.graph (env : ApiEnv) (ty : Nat) : Graph := if ty = 0 then env.gA else env.gB
 def ApiEnv.cb (env : ApiEnv) (ty : Nat) : Callbacks := if ty = 0 then env.cbA else env.cbB
-/-- `Source::is_boundary` of the source type -/
-def ApiEnv.isB (env : ApiEnv) : Nat → Bool := if env.utf8 then isBoundary env.src else isBBytes env.src.length
+/-- the source a lexer reads -/
+def ApiEnv.srcOf (env : ApiEnv) (st : LexSt) : List Nat := if st.srcId = 0 then env.src else env.src2
+/-- `Source::is_boundary` of the source type, on the lexer's source -/
+def ApiEnv.isB (env : ApiEnv) (st : LexSt) : Nat → Bool :=
+  if env.utf8 then isBoundary (env.srcOf st) else isBBytes (env.srcOf st).length
 
 /-- `Iterator::next`: `token_start = token_end; Token::lex(self)` -/
 def lexerNext (env : ApiEnv) (st : LexSt) : LexSt × NextRes :=
-  let r := nextLoop (walkAttempt (env.graph st.ty) st.pfx env.src) (env.cb st.ty) env.utf8 env.src
-    (env.src.length + 2) st.stop
+  let r := nextLoop (walkAttempt (env.graph st.ty) st.pfx (env.srcOf st)) (env.cb st.ty) env.utf8 (env.srcOf st)
+    ((env.srcOf st).length + 2) st.stop
   match r with
   | .item it => ({ st with start := it.start, stop := it.stop }, r)
   | .none s e => ({ st with start := s, stop := e }, r)
   | .diverge => (st, r)
 
 def lexerBump (env : ApiEnv) (st : LexSt) (n : Nat) : LexSt × Bool :=
-  match bumpFixed env.isB ⟨st.start, st.stop⟩ n with
+  match bumpFixed (env.isB st) ⟨st.start, st.stop⟩ n with
   | .ok s => ({ st with start := s.start, stop := s.stop }, true)
   | .panic s => ({ st with start := s.start, stop := s.stop }, false)
 
@@ -75,7 +83,7 @@ def setAt (pool : List LexSt) (i : Nat) (st : LexSt) : List LexSt := pool.set i 
 /-- one API call; indices are taken modulo the pool size as the harness does -/
 def apiStep (env : ApiEnv) (pool : List LexSt) (op : ApiOp) : List LexSt × Nat × ApiOut :=
   if pool.isEmpty then (pool, 0, .noLexer) else
-  let pick (i : Nat) : Nat × LexSt := (i % pool.length, pool.getD (i % pool.length) ⟨0, 0, 0, 0, false⟩)
+  let pick (i : Nat) : Nat × LexSt := (i % pool.length, pool.getD (i % pool.length) ⟨0, 0, 0, 0, false, 0⟩)
   match op with
   | .next i =>
     let (j, st) := pick i
@@ -96,7 +104,7 @@ def apiStep (env : ApiEnv) (pool : List LexSt) (op : ApiOp) : List LexSt × Nat 
   | .morph i =>
     let (j, st) := pick i
     (setAt pool j { st with ty := if st.ty = 0 then 1 else 0 }, j, .morphed)
-  | .fresh p => (pool ++ [⟨0, 0, 0, 7, p⟩], pool.length, .made)
+  | .fresh p k => (pool ++ [⟨0, 0, 0, 7, p, k⟩], pool.length, .made)
   | .cloneFrom i j =>
     let (ji, si) := pick i
     let (_, sj) := pick j
@@ -108,5 +116,8 @@ def apiRun (env : ApiEnv) (pool : List LexSt) : List ApiOp → List LexSt
 
 /-- the invariant safe code relies on: `slice()` = `source[start..stop]`, `remainder()` = `source[stop..]` -/
 def LexSt.inRange (len : Nat) (st : LexSt) : Prop := st.start ≤ st.stop ∧ st.stop ≤ len
+
+/-- ... with respect to the lexer's own source -/
+def LexSt.ok (env : ApiEnv) (st : LexSt) : Prop := st.inRange (env.srcOf st).length
 
 end Logos
